@@ -226,6 +226,18 @@ impl ConsumeUnverifiedBlockProcessor {
         let block_hash = block.hash();
         let parent_hash = block.parent_hash();
 
+        // A second copy of this block can be in flight while the first copy fails verification:
+        // the block has then been deleted and marked invalid; do not verify it (or store an ext for it) again.
+        if self
+            .shared
+            .get_block_status(&block_hash)
+            .eq(&BlockStatus::BLOCK_INVALID)
+        {
+            return Err(InternalErrorKind::Other
+                .other(format!("block: {} previously verified failed", block_hash))
+                .into());
+        }
+
         {
             let parent_status = self.shared.get_block_status(&parent_hash);
             if parent_status.eq(&BlockStatus::BLOCK_INVALID) {
